@@ -91,7 +91,7 @@ func numbers() []any {
 	}
 	for _, l := range []string{"0", "1", "-1", "-0", "1.0", "1.5", "-0.0", "0.1", "1e2", "1E2", "100.25", "25e-1", "9007199254740992", "9007199254740993",
 		"9007199254740993.0", "9007199254740991.0", "-9007199254740993", "9223372036854775807", "9223372036854775808", "-9223372036854775809",
-		"1000000000000000000000000000000", "1e30", "1e1000", "-1e1000", "1e-400", "5e-324", "2.4703282292062327e-324", "2.4703282292062328e-324",
+		"1000000000000000000000000000000", "1e30", "1e400", "-1e400", "1e-400", "5e-324", "2.4703282292062327e-324", "2.4703282292062328e-324",
 		"1.7976931348623157e308", "1.7976931348623159e308", "0.30000000000000004", "1.000000000000000000001", "4503599627370496.5", "4503599627370497.5"} {
 		xs = append(xs, json.Number(l))
 	}
